@@ -77,11 +77,14 @@ structure Quirks where
   childCodeWhitelist : Bool := true
   deriving Repr, Inhabited
 
-/-- the interpreter as it is (repaired since the first version of this record: the call output window and the call value
-    seen by a STATICCALL callee).  The stack limit stays a recorded deviation: Burrow's `DataStackMaxDepth` option cannot
+/-- the interpreter as it is (repaired since the first version of this record: the call output window, the call value
+    seen by a STATICCALL callee, and zero-length memory operands, which no longer grow memory).  The stack limit stays a recorded deviation: Burrow's `DataStackMaxDepth` option cannot
     enforce it, because the gas functions read their operands with `Dup` + `Pop` (vm/utils.go `GetWord256`) and so overflow
     a stack of exactly 1024 words, which the specification allows. -/
-def Quirks.impl : Quirks := { callOutputWindow := false, staticCallValue := false }
+def Quirks.impl : Quirks := { callOutputWindow := false, staticCallValue := false, zeroLenGrows := false }
+/-- the interpreter before the repair of the zero-length memory operands (a zero-length access grew memory to its offset, for
+    nothing): kept so that the defect stays a theorem about a named configuration -/
+def Quirks.implBeforeZeroLenFix : Quirks := { Quirks.impl with zeroLenGrows := true }
 def Quirks.spec : Quirks :=
   { readBeyondErr := false, dataOffsetU64 := false, zeroLenGrows := false, noStackLimit := false, hugeOffsetNotOog := false,
     childExceptionAborts := false, callUnknownErr := false, callOutputWindow := false, queryUnknownErr := false,
@@ -210,8 +213,6 @@ def ensureCap (m : ByteArray) (cap : Nat) : Option ByteArray :=
 /-- Memory.Read(offset, length); `nil` is the empty string -/
 def memRead (q : Quirks) (o l : Nat) : M ByteArray := do
   if l == 0 && !q.zeroLenGrows then
-    let s ← getF
-    if o > s.mem.size then noteDev 3
     return .empty
   if o ≥ U64 || l ≥ U64 then
     pushErr .generic
@@ -232,8 +233,7 @@ def memRead (q : Quirks) (o l : Nat) : M ByteArray := do
 /-- Memory.Write(offset, value) -/
 def memWrite (q : Quirks) (o : Nat) (v : ByteArray) : M Unit := do
   if v.size == 0 && !q.zeroLenGrows then
-    let s ← getF
-    if o > s.mem.size then noteDev 3
+    pure ()
   else if o ≥ U64 then
     pushErr .generic
   else
